@@ -54,9 +54,10 @@ Record tlsst := mkTls {
   t_pend : Z;                    (* size of pendingSend, -1 = empty *)
   t_rem : Z;                     (* remainingTime, ms *)
   t_server : bool;               (* SSL_is_server: accept state (socket obtained from a TLS acceptor) *)
-  t_started : bool               (* negation of SSL_in_before: the engine was entered at least once *)
+  t_started : bool;              (* negation of SSL_in_before: the engine was entered at least once *)
+  t_more : bool                  (* SSL_pending > 0: the engine holds the rest of a decrypted record *)
 }.
-#[export] Instance eta_tls : Settable _ := settable! mkTls <t_last; t_isr; t_isw; t_supp; t_init; t_pend; t_rem; t_server; t_started>.
+#[export] Instance eta_tls : Settable _ := settable! mkTls <t_last; t_isr; t_isw; t_supp; t_init; t_pend; t_rem; t_server; t_started; t_more>.
 
 Record ext := mkExt {
   x_pools : list (Z * pool);     (* user pools by key *)
